@@ -181,6 +181,10 @@ pub static mut KN_BYTES_LEN: usize = 0;
 pub static mut KN_REPLY_COUNT: bool = false;
 pub static mut KN_NENT: usize = 0;
 pub static mut KN_ENT_NAMELEN: usize = 0;
+/// payload bytes live in their own static too (read back through Option<Script> CBMC returned
+/// different values to two readers of the same field: spurious counterexamples)
+pub static mut KN_BYTES: [u8; NB] = [0; NB];
+pub static mut KN_ERR: i32 = 0;
 
 pub fn set_script(sc: Script) {
     unsafe {
@@ -188,6 +192,8 @@ pub fn set_script(sc: Script) {
         KN_REPLY_COUNT = sc.reply_count;
         KN_NENT = sc.nent;
         KN_ENT_NAMELEN = sc.ent_namelen;
+        KN_BYTES = sc.bytes;
+        KN_ERR = sc.err;
         SCRIPT = Some(sc);
     }
 }
@@ -196,6 +202,9 @@ pub fn kn_bytes_len() -> usize {
 }
 pub fn kn_reply_count() -> bool {
     unsafe { KN_REPLY_COUNT }
+}
+pub fn kn_bytes() -> &'static [u8; NB] {
+    unsafe { &KN_BYTES }
 }
 pub fn kn_nent() -> usize {
     unsafe { KN_NENT }
@@ -229,21 +238,26 @@ pub fn any_stat() -> stat64 {
     st
 }
 
+/// seconds symbolic, sub-second part concrete (see `any_entry_nanos` for why)
 pub fn any_duration() -> Duration {
-    let s: u64 = kani::any();
-    let n: u32 = kani::any();
-    kani::assume(n < 1_000_000_000);
-    Duration::new(s, n)
+    Duration::new(kani::any(), 123_456_789)
 }
 
 pub fn any_entry() -> Entry {
+    any_entry_nanos(999_999_999, 1)
+}
+
+/// Entry whose timeouts have CONCRETE sub-second parts: `Option<Entry>` stores its discriminant
+/// in the niche of `Duration::nanos`, so symbolic nanoseconds make `Some(entry)` look possibly-None
+/// to CBMC's constant propagation (measured: add_dirent explodes to > 6M symex steps).
+pub fn any_entry_nanos(attr_ns: u32, entry_ns: u32) -> Entry {
     Entry {
         inode: kani::any(),
         generation: kani::any(),
         attr: any_stat(),
         attr_flags: kani::any(),
-        attr_timeout: any_duration(),
-        entry_timeout: any_duration(),
+        attr_timeout: Duration::new(kani::any(), attr_ns),
+        entry_timeout: Duration::new(kani::any(), entry_ns),
     }
 }
 
@@ -332,14 +346,27 @@ pub fn expected_errno(code: i32) -> i32 {
     }
 }
 
+/// the scripted payload as a fresh Vec (built element-wise)
+fn payload_vec() -> Vec<u8> {
+    let s = script();
+    let n = kn_bytes_len();
+    let mut v = Vec::with_capacity(n);
+    let mut i = 0;
+    while i < n {
+        v.push(kn_bytes()[i]);
+        i += 1;
+    }
+    v
+}
+
 fn script() -> &'static Script {
     unsafe { SCRIPT.as_ref().unwrap() }
 }
 
 fn fail() -> Option<io::Error> {
-    let s = script();
-    if s.err != 0 {
-        Some(mk_err(s.err))
+    let e = unsafe { KN_ERR };
+    if e != 0 {
+        Some(mk_err(e))
     } else {
         None
     }
@@ -497,7 +524,7 @@ impl FileSystem for SymFs {
         if let Some(e) = fail() {
             return Err(e);
         }
-        Ok(script().bytes[..kn_bytes_len()].to_vec())
+        Ok(payload_vec())
     }
 
     fn symlink(&self, ctx: &Context, linkname: &CStr, parent: u64, name: &CStr) -> io::Result<Entry> {
@@ -659,17 +686,12 @@ impl FileSystem for SymFs {
         if let Some(e) = fail() {
             return Err(e);
         }
-        // an honest filesystem: produce min(bytes_len, size, space) bytes and report that count
+        // an honest filesystem: produce the scripted bytes if the client asked for at least that
+        // many and they fit, nothing otherwise, and report exactly what was produced
         let s = script();
-        let mut n = kn_bytes_len();
-        if n > size as usize {
-            n = size as usize;
-        }
-        if n > w.available_bytes() {
-            n = w.available_bytes();
-        }
-        if n > 0 {
-            let done = w.write(&s.bytes[..n])?;
+        let n = kn_bytes_len();
+        if n > 0 && (size as usize) >= n && w.available_bytes() >= n {
+            let done = w.write(&kn_bytes()[..n])?;
             unsafe { LOG.a[4] = done as u64 };
             Ok(done)
         } else {
@@ -702,9 +724,9 @@ impl FileSystem for SymFs {
             LOG.b[0] = delayed_write;
         }
         // read the payload the way a filesystem would (bounded by NB)
+        // read whatever payload is there (up to NB bytes) the way a filesystem would
         let mut tmp = [0u8; NB];
-        let want = if (size as usize) < NB { size as usize } else { NB };
-        let got = r.read(&mut tmp[..want])?;
+        let got = r.read(&mut tmp)?;
         rec_data(&tmp[..got]);
         if let Some(e) = fail() {
             return Err(e);
@@ -819,7 +841,7 @@ impl FileSystem for SymFs {
         if kn_reply_count() {
             Ok(GetxattrReply::Count(s.v32))
         } else {
-            Ok(GetxattrReply::Value(s.bytes[..kn_bytes_len()].to_vec()))
+            Ok(GetxattrReply::Value(payload_vec()))
         }
     }
 
@@ -833,7 +855,7 @@ impl FileSystem for SymFs {
         if kn_reply_count() {
             Ok(ListxattrReply::Count(s.v32))
         } else {
-            Ok(ListxattrReply::Names(s.bytes[..kn_bytes_len()].to_vec()))
+            Ok(ListxattrReply::Names(payload_vec()))
         }
     }
 
@@ -882,7 +904,7 @@ impl FileSystem for SymFs {
                 ino: s.ent_ino,
                 offset: s.ent_off,
                 type_: s.ent_type,
-                name: &s.bytes[..kn_ent_namelen()],
+                name: &kn_bytes()[..kn_ent_namelen()],
             };
             match add_entry(d) {
                 Ok(0) => break,
@@ -921,7 +943,7 @@ impl FileSystem for SymFs {
                 ino: s.ent_ino,
                 offset: s.ent_off,
                 type_: s.ent_type,
-                name: &s.bytes[..kn_ent_namelen()],
+                name: &kn_bytes()[..kn_ent_namelen()],
             };
             match add_entry(d, s.entry) {
                 Ok(0) => break,
@@ -1085,7 +1107,7 @@ impl FileSystem for SymFs {
             data: if kn_reply_count() {
                 None
             } else {
-                Some(&s.bytes[..kn_bytes_len()])
+                Some(&kn_bytes()[..kn_bytes_len()])
             },
         })
     }
